@@ -2326,9 +2326,13 @@ def _node_label_map(fi: FuncInfo, e: ast.expr, depth=0):
         return None
     if isinstance(e, ast.Name):
         d = single_def(fi.node, e.id)
+        if d is None and e.id in params_of(fi.node):
+            return "same"          # a table handed in (atom label -> record): iterating it gives its own keys
         return _node_label_map(fi, d, depth + 1) if d is not None else None
     if isinstance(e, ast.Call) and isinstance(e.func, ast.Name) and e.func.id in ("sorted", "list", "tuple", "reversed") and e.args:
         return _node_label_map(fi, e.args[0], depth + 1)
+    if isinstance(e, ast.Call) and isinstance(e.func, ast.Attribute) and e.func.attr == "keys" and isinstance(e.func.value, ast.Name) and e.func.value.id in params_of(fi.node):
+        return "same"
     if isinstance(e, ast.Call) and isinstance(e.func, ast.Attribute) and e.func.attr in ("nodes", "data", "items"):
         return "same"
     if isinstance(e, (ast.GeneratorExp, ast.ListComp)) and len(e.generators) == 1 and isinstance(e.elt, ast.Tuple) and len(e.elt.elts) == 2:
@@ -2374,9 +2378,13 @@ def _edge_label_map(fi: FuncInfo, e: ast.expr, depth=0):
         return None
     if isinstance(e, ast.Name):
         d = single_def(fi.node, e.id)
+        if d is None and e.id in params_of(fi.node):
+            return "same"          # a bond table handed in ((label, label) -> record): its keys are the pairs as they are
         return _edge_label_map(fi, d, depth + 1) if d is not None else None
     if isinstance(e, ast.Call) and isinstance(e.func, ast.Name) and e.func.id in ("sorted", "list", "tuple") and e.args:
         return _edge_label_map(fi, e.args[0], depth + 1)
+    if isinstance(e, ast.Call) and isinstance(e.func, ast.Attribute) and e.func.attr == "keys" and isinstance(e.func.value, ast.Name) and e.func.value.id in params_of(fi.node):
+        return "same"
     if isinstance(e, ast.Call) and isinstance(e.func, ast.Attribute) and e.func.attr in ("edges", "data"):
         return "same"
     if isinstance(e, ast.Attribute) and e.attr == "edges":
